@@ -3,3 +3,4 @@ import CbGen.Ladder
 import CbGen.FfiTable
 import CbGen.ErrClass
 import CbGen.Generic
+import CbGen.Sleep
